@@ -14,8 +14,14 @@ SCHEDULE: Dict[Tuple[str, str], int] = {}
 COMPLETIONS = []
 
 
+import contextvars
+
+# extra yields of every requirement-constraint evaluation of ONE evaluation (context-local): lets concurrently running evaluations drift apart
+JOB_DELAY: "contextvars.ContextVar[int]" = contextvars.ContextVar("vf_job_delay", default=0)
+
+
 async def sleeps(kind: str, key: str):
-    for _ in range(SCHEDULE.get((kind, key), 0)):
+    for _ in range(SCHEDULE.get((kind, key), 0) + (JOB_DELAY.get() if kind == "rc" else 0)):
         await asyncio.sleep(0)
     COMPLETIONS.append((kind, key))
 
